@@ -240,6 +240,56 @@ func genWide(t *rapid.T) Case {
 	return c
 }
 
+// omitsOnlyUnlisted reports whether every difference between the store's
+// Predecessors and the ground truth is a missing predecessor that is a stored
+// manifest which no index.json entry reaches.
+func omitsOnlyUnlisted(ctx context.Context, pf orc.PredFinder, d *gen.DAG, stored map[int]bool, dir string) bool {
+	indexed, err := orc.IndexedSet(dir, d, stored)
+	if err != nil {
+		return false
+	}
+	parents := d.Parents()
+	byKey := map[string]int{}
+	for _, id := range d.CanonIDs() {
+		byKey[gen.TripleKey(d.Nodes[id].Desc)] = id
+	}
+	differs := false
+	for _, id := range d.CanonIDs() {
+		got, err := pf.Predecessors(ctx, d.Nodes[id].Desc)
+		if err != nil {
+			return false
+		}
+		have := map[int]bool{}
+		for _, g := range got {
+			p, ok := byKey[gen.TripleKey(g)]
+			if !ok {
+				return false
+			}
+			have[p] = true
+		}
+		want := map[int]bool{}
+		for _, p := range parents[id] {
+			if stored[p] {
+				want[p] = true
+			}
+		}
+		for p := range have {
+			if !want[p] {
+				return false // an extra predecessor is a different matter
+			}
+		}
+		for p := range want {
+			if !have[p] {
+				if indexed[p] {
+					return false // a listed manifest is missing: a different matter
+				}
+				differs = true
+			}
+		}
+	}
+	return differs
+}
+
 func strayPath(dir string, s Stray) string { return filepath.Join(dir, "blobs", s.Alg, s.Name) }
 
 func validDigestName(alg, name string) bool {
@@ -380,6 +430,7 @@ func runCase(c Case) (res vt.Result, fail *vt.Fail) {
 	// afterwards links them, and the auto-GC cascade then passes them over (known
 	// finding C09/unindexed-blob-survives-autogc).
 	unindexed := map[int]bool{}
+	reopened := false
 	checkAll := func(when string) *vt.Fail {
 		if c.AutoGC {
 			for id := range unindexed {
@@ -393,6 +444,11 @@ func runCase(c Case) (res vt.Result, fail *vt.Fail) {
 			}
 		}
 		if f := orc.CheckOCIState(ctx, s, m, "C09", when); f != nil {
+			if f.Key == "C09/predecessors-mismatch" && reopened && omitsOnlyUnlisted(ctx, s, d, m.StoredTriples(), dir) {
+				// same root cause as C07/C08's known finding: a store opened from the
+				// directory knows only what index.json reaches
+				return vt.Failf("C09/reopen-omits-unindexed-manifest", "%s: the reopened store omits, as predecessors, stored manifests that no index.json entry reaches (and nothing else differs): %s", when, f.Msg)
+			}
 			return f
 		}
 		got, err := orc.BlobFiles(dir)
@@ -476,6 +532,7 @@ func runCase(c Case) (res vt.Result, fail *vt.Fail) {
 			}
 			s2.AutoGC = c.AutoGC
 			s = s2
+			reopened = true
 			classes["reopen"] = true
 			{
 				parents := d.Parents()
